@@ -95,7 +95,6 @@ package xmldsig
 //@
 //@ func RemoveElements
 //@   property C08 C19
-//@   requires root != nil
 //@   loop 0 sig "for i := 0; i < len(root.Child);" invariant 0 <= i && forall(k, 0, i, keptChild(root.Child[k], tag))
 //@   loop 0 exit @every_child_was_looked_at i >= len(root.Child)
 //@   ensures @no_child_element_with_that_local_name_is_left_whatever_its_prefix forall(k, 0, len(root.Child), keptChild(root.Child[k], tag))
